@@ -100,18 +100,37 @@ Definition oracles_of (m : members) (dflt : bool) : oracles :=
      sign := sign_table (g_list "signs" m);
      jwk_key := jwk_table (g_list "jwks" m) (if dflt then Some {| kid := 999; kfam := FEc |} else None) |}.
 
-(* "resolver": {"default": key, "by_iss": [{"iss": str, "key": key}]} *)
-Definition resolver_of (m : members) (iss : str) (_ : json) : key :=
+(* "resolver": {"default": key, "by_iss": [{"iss": str, "key": key}], "by_kid": [{"kid": str, "key": key}]}:
+   the key registered for the header's kid when there is one, else the key registered for iss, else the default *)
+Definition resolver_of (m : members) (iss : str) (hd : json) : key :=
   let r := g_obj "resolver" m in
-  (fix go (l : list json) : key :=
-     match l with
-     | [] => key_of (g_val "default" r)
-     | JObj e :: l' => match g_str "iss" e with
-                       | Some i => if str_eqb i iss then key_of (g_val "key" e) else go l'
-                       | None => go l'
-                       end
-     | _ :: l' => go l'
-     end) (g_list "by_iss" r).
+  let by_iss :=
+    (fix go (l : list json) : key :=
+       match l with
+       | [] => key_of (g_val "default" r)
+       | JObj e :: l' => match g_str "iss" e with
+                         | Some i => if str_eqb i iss then key_of (g_val "key" e) else go l'
+                         | None => go l'
+                         end
+       | _ :: l' => go l'
+       end) (g_list "by_iss" r) in
+  match hd with
+  | JObj h =>
+      match obj_get (lit "kid") h with
+      | Some (JStr k) =>
+          (fix go (l : list json) : key :=
+             match l with
+             | [] => by_iss
+             | JObj e :: l' => match g_str "kid" e with
+                               | Some i => if str_eqb i k then key_of (g_val "key" e) else go l'
+                               | None => go l'
+                               end
+             | _ :: l' => go l'
+             end) (g_list "by_kid" r)
+      | _ => by_iss
+      end
+  | _ => by_iss
+  end.
 
 (* ---- responses ---- *)
 Definition jstr (s : string) : json := JStr (lit s).
